@@ -15,6 +15,7 @@ import (
 //     (it must take the write lock), and every READ (Get, List, Query) must complete;
 //   - while the probe holds Lock, EVERY method must block;
 //   - after the probe releases the lock the blocked call must complete.
+//
 // This is exactly the assumption of Engine/Conc.v ("a single storage call is atomic"): the
 // gate scheduler replays interleavings BETWEEN driver calls and cannot see two calls
 // overlapping inside the driver.
